@@ -226,13 +226,23 @@ def run(facts, rep, tier):
                     rep.inconclusive('FI.4', 'read()', rd.shortloc(), str(e)); break
                 for P, E in res:
                     text = mode in ('ReadText', 'AppendText')
-                    seeks = [e for e in E if e.kind == 'call' and strip_targs(e.name) == f'{F}::seek']
-                    reads = [e for e in E if e.kind == 'call' and strip_targs(e.name) == f'{F}::read']
+                    # positioning: File::seek(offset, origin), or the C calls on the stream (fseek(stream, offset, whence), rewind(stream))
+                    seeks = [e for e in E if e.kind == 'call' and (strip_targs(e.name) == f'{F}::seek' or e.name in ('fseek', 'fseeko', 'rewind'))]
+                    reads = [e for e in E if e.kind == 'call' and (strip_targs(e.name) == f'{F}::read' or e.name == 'fread')]
+                    if any(strip_targs(e.name) == f'{F}::read' for e in reads): reads = [e for e in reads if strip_targs(e.name) == f'{F}::read']
                     sizes = [e for e in E if e.kind == 'call' and strip_targs(e.name) == f'{F}::size']
-                    tells = [e for e in E if e.kind == 'call' and strip_targs(e.name) == f'{F}::tell']
+                    tells = [e for e in E if e.kind == 'call' and (strip_targs(e.name) == f'{F}::tell' or e.name in ('ftell', 'ftello'))]
                     getcs = [e for e in E if e.kind == 'call' and e.name in ('fgetc', 'getc')]
-                    is_rewind = lambda e: as_lin(e.args[0]) == Lin.const(0) and len(e.args) > 1 and repr(e.args[1]).endswith('Start')
-                    is_toend = lambda e: as_lin(e.args[0]) == Lin.const(0) and len(e.args) > 1 and repr(e.args[1]).endswith('End')
+                    def _pos(e):
+                        """(offset, origin) of a positioning call; origin in Start / End / Cur / ?"""
+                        if e.name == 'rewind': return Lin.const(0), 'Start'
+                        a_ = e.args[1:] if e.name in ('fseek', 'fseeko') else e.args
+                        off = as_lin(a_[0]) if a_ and isinstance(a_[0], (Lin, int)) else None
+                        org = repr(a_[1]) if len(a_) > 1 else '?'
+                        if len(a_) > 1 and as_lin(a_[1]) is not None and as_lin(a_[1]).is_const(): org = {0: 'Start', 1: 'Cur', 2: 'End'}.get(as_lin(a_[1]).c, '?')
+                        return off, ('Start' if org.endswith('Start') else 'End' if org.endswith('End') else 'Cur' if org.endswith(('Cur', 'Current')) else org)
+                    is_rewind = lambda e: _pos(e)[0] == Lin.const(0) and _pos(e)[1] == 'Start'
+                    is_toend = lambda e: _pos(e)[0] == Lin.const(0) and _pos(e)[1] == 'End'
                     def last_seek_before(ev):
                         i = E.index(ev); prev = [x for x in seeks if E.index(x) < i]
                         return prev[-1] if prev else None
@@ -240,19 +250,23 @@ def run(facts, rep, tier):
                     if reads:
                         ls = last_seek_before(reads[0])
                         okrw = ls is not None and is_rewind(ls)
-                        rep.check(okrw, 'FI.4', f'read() mode {mode}: the stream is rewound to offset 0 before the data is read', ls.site if ls else rd.shortloc(), 'the data is not read from offset 0: ' + ('no seek before the read' if ls is None else f'the last seek before it is seek({ls.args[0]}, {ls.args[1] if len(ls.args) > 1 else "?"})'), key='FI.4|rewind', fn=rd.name)
+                        inst_rw = f'read() mode {mode}: the stream is rewound to offset 0 before the data is read'
+                        if ls is None: rep.inconclusive('FI.4', inst_rw, rd.shortloc(), 'no positioning call (File::seek / fseek / rewind) was found before the data is read: where the read starts is not followed')
+                        else: rep.check(okrw, 'FI.4', inst_rw, ls.site, f'the data is not read from offset 0: the last positioning before the read is {_pos(ls)}', key='FI.4|rewind', fn=rd.name)
                     if text:
                         iters = len(getcs)
                         fs = last_seek_before(getcs[0]) if getcs else None
                         okc = not sizes and bool(getcs) and fs is not None and is_rewind(fs)
-                        rep.check(okc, 'FI.4', f'read() mode {mode}: counts bytes from offset 0 ({iters} fgetc on this path)', rd.shortloc(), 'text mode does not count the bytes from the start of the stream', key='FI.4|text', fn=rd.name)
+                        inst_c = f'read() mode {mode}: counts bytes from offset 0 ({iters} fgetc on this path)'
+                        if getcs and fs is None: rep.inconclusive('FI.4', inst_c, rd.shortloc(), 'no positioning call before the counting loop was found')
+                        else: rep.check(okc, 'FI.4', inst_c, rd.shortloc(), 'text mode does not count the bytes from the start of the stream' + (f' (the last positioning before the count is {_pos(fs)})' if fs is not None and getcs else ''), key='FI.4|text', fn=rd.name)
                     elif reads and len(reads[0].args) >= 3:
                         cnt = reads[0].args[2]
                         nm = repr(cnt)
                         if any(nm == f'size@{x.node.id}' for x in sizes) and not getcs:
                             rep.ok('FI.4', f'read() mode {mode}: the byte count is size()', rd.shortloc())
-                        elif any(nm == f'tell@{x.node.id}' for x in tells) and not getcs:
-                            t0 = next(x for x in tells if nm == f'tell@{x.node.id}'); ls = last_seek_before(t0)
+                        elif any(nm in (f'tell@{x.node.id}', f'ret:ftell@{x.node.line}') for x in tells) and not getcs:
+                            t0 = next(x for x in tells if nm in (f'tell@{x.node.id}', f'ret:ftell@{x.node.line}')); ls = last_seek_before(t0)
                             okt = ls is not None and is_toend(ls)
                             rep.check(okt, 'FI.4', f'read() mode {mode}: the byte count is the offset of the end of the stream (seek(0, End); tell())', t0.site, 'the byte count is a stream position that is not the end of the file', key='FI.4|binary', fn=rd.name)
                         elif getcs: rep.violation('FI.4', f'read() mode {mode}: the byte count is the size of the file', rd.shortloc(), 'binary mode counts with fgetc', key='FI.4|binary', fn=rd.name)
@@ -260,7 +274,8 @@ def run(facts, rep, tier):
                     cons = [e for e in E if e.kind in ('construct',) and strip_targs(e.name).startswith('tulz::Array')]
                     if len(reads) == 1 and len(reads[0].args) >= 3:
                         a = reads[0].args
-                        ok = as_lin(a[1]) == Lin.const(1) and (cons and repr(cons[0].args[0]) == repr(a[2]) if cons else True)
+                        one = as_lin(a[1]) == Lin.const(1) or repr(a[1]) in ('sizeof(unsigned char)', 'sizeof(char)', 'sizeof(signed char)', 'sizeof(tulz::byte)', 'sizeof(byte)', 'sizeof(std::byte)')
+                        ok = one and (cons and repr(cons[0].args[0]) == repr(a[2]) if cons else True)
                         rep.check(ok, 'FI.4', f'read() mode {mode}: read(buffer, 1, count) with the buffer sized count', reads[0].site, f'read({a[1]}, {a[2]}) into an Array of {cons[0].args[0] if cons else "?"}', key='FI.4|fread-args', fn=rd.name)
         # fread / fwrite argument order
         for f in [g for g in facts.fns if g.d.get('class') == F]:
